@@ -65,6 +65,15 @@ def run(ck, rng, tier):
             Y = X @ Bc + np.array([rng.uniform(-10, 10) for _ in range(ny)])
             Y = Y + noise * (Y.std(axis=0) + 1e-9) * np.array([[rng.gauss(0, 1) for _ in range(ny)] for _ in range(n)])
             ck.count("negative predictor means, centred last predictor")
+        if c in (10, 11):
+            # a 0/1 group indicator among the predictors, objects sorted by group: rows 4k..4k+3 exactly 0, later rows 1
+            n = (12, 16)[c - 10]; m = max(m, 2)
+            X, Y = gen(rng, n, m, ny, min(cond, 100.0), noise)
+            X[:, m - 1] = np.array(([0.0] * 4 + [1.0] * 4) * (n // 8) + [1.0] * (n % 8))[:n] if c == 10 else np.array([0.0] * 8 + [1.0] * 8)
+            Bc = np.array([[rng.gauss(0, 1) for _ in range(ny)] for _ in range(m)])
+            Y = X @ Bc + np.array([rng.uniform(-10, 10) for _ in range(ny)])
+            Y = Y + noise * (Y.std(axis=0) + 1e-9) * np.array([[rng.gauss(0, 1) for _ in range(ny)] for _ in range(n)])
+            ck.count("sorted 0/1 indicator predictor")
         Xnew = np.array([[rng.gauss(0, 1) for _ in range(m)] for _ in range(3)])
         if c == 3 or (thorough and c % 20 == 9):
             # predictors in large units, responses in small ones (slopes of order 1e-12): every coefficient counts
